@@ -41,4 +41,1405 @@ def CtlRel (res : List Label) : Ctl → Ctl → Prop
   | .ret v1, .ret v2 => lowEqList res v1 v2
   | _, _ => False
 
+
+/-! ## Shapes -/
+
+theorem erase_arr (l : List Val) : (Val.arr l).erase = .arr (l.map Val.erase) := by
+  simp [Val.erase]
+
+theorem erase_int (n : Int) : (Val.int n).erase = .int 0 := by
+  simp [Val.erase]
+
+theorem eraseL_of_arr {l1 l2 : List Val} (h : (Val.arr l1).erase = (Val.arr l2).erase) :
+    l1.map Val.erase = l2.map Val.erase := by
+  rw [erase_arr, erase_arr] at h
+  exact Val.arr.inj h
+
+theorem arr_of_eraseL {l1 l2 : List Val} (h : l1.map Val.erase = l2.map Val.erase) :
+    (Val.arr l1).erase = (Val.arr l2).erase := by
+  rw [erase_arr, erase_arr, h]
+
+theorem eraseL_getElem? {l1 l2 : List Val} (h : l1.map Val.erase = l2.map Val.erase) (k : Nat)
+    {v1 v2 : Val} (h1 : l1[k]? = some v1) (h2 : l2[k]? = some v2) : v1.erase = v2.erase := by
+  have h3 : (l1.map Val.erase)[k]? = (l2.map Val.erase)[k]? := by rw [h]
+  simp only [List.getElem?_map, h1, h2, Option.map_some] at h3
+  exact Option.some.inj h3
+
+theorem eraseL_getIdx {l1 l2 : List Val} (h : l1.map Val.erase = l2.map Val.erase) (n : Int)
+    {v1 v2 : Val} (h1 : getIdx l1 n = some v1) (h2 : getIdx l2 n = some v2) : v1.erase = v2.erase := by
+  unfold getIdx at h1 h2
+  split at h1
+  · cases h1
+  · rename_i hn
+    rw [if_neg hn] at h2
+    exact eraseL_getElem? h _ h1 h2
+
+theorem eraseL_slice {l1 l2 : List Val} (h : l1.map Val.erase = l2.map Val.erase) (n m : Int)
+    {r1 r2 : List Val} (h1 : sliceList l1 n m = some r1) (h2 : sliceList l2 n m = some r2) :
+    r1.map Val.erase = r2.map Val.erase := by
+  unfold sliceList at h1 h2
+  split at h1
+  · cases h1
+  · split at h2
+    · cases h2
+    · cases h1; cases h2
+      simp only [List.map_take, List.map_drop, h]
+
+theorem erase_updPath : ∀ (ks : List Nat) (o1 o2 v1 v2 n1 n2 : Val), o1.erase = o2.erase →
+    v1.erase = v2.erase → updPath o1 ks v1 = some n1 → updPath o2 ks v2 = some n2 →
+    n1.erase = n2.erase := by
+  intro ks
+  induction ks with
+  | nil =>
+    intro o1 o2 v1 v2 n1 n2 _ hv h1 h2
+    rw [updPath] at h1 h2
+    cases h1; cases h2; exact hv
+  | cons k ks ih =>
+    intro o1 o2 v1 v2 n1 n2 ho hv h1 h2
+    cases o1 with
+    | int a => rw [updPath] at h1; cases h1
+    | arr l1 =>
+      cases o2 with
+      | int b => rw [updPath] at h2; cases h2
+      | arr l2 =>
+        have hl := eraseL_of_arr ho
+        rw [updPath] at h1 h2
+        cases hk1 : l1[k]? with
+        | none => simp [hk1] at h1
+        | some a1 =>
+          cases hk2 : l2[k]? with
+          | none => simp [hk2] at h2
+          | some a2 =>
+            simp only [hk1, hk2] at h1 h2
+            cases hu1 : updPath a1 ks v1 with
+            | none => simp [hu1] at h1
+            | some m1 =>
+              cases hu2 : updPath a2 ks v2 with
+              | none => simp [hu2] at h2
+              | some m2 =>
+                simp only [hu1, hu2, Option.some.injEq] at h1 h2
+                subst h1; subst h2
+                have hm := ih a1 a2 v1 v2 m1 m2 (eraseL_getElem? hl k hk1 hk2) hv hu1 hu2
+                apply arr_of_eraseL
+                rw [List.map_set, List.map_set, hl, hm]
+
+/-! ## Agreement at a label -/
+
+theorem lowEqV_refl (l : Label) (a : Val) : lowEqV l a a := by
+  cases l <;> rfl
+
+theorem lowEqV_erase {l : Label} {a b : Val} (h : lowEqV l a b) : a.erase = b.erase := by
+  cases l
+  · have : a = b := h
+    rw [this]
+  · exact h
+
+theorem lowEqV_mono {l1 l2 : Label} {a b : Val} (hle : l1.le l2 = true) (h : lowEqV l1 a b) :
+    lowEqV l2 a b := by
+  cases l2
+  · cases l1
+    · exact h
+    · simp [Label.le] at hle
+  · exact lowEqV_erase h
+
+theorem join_eq_L {la lb : Label} (h : la.join lb = .L) : la = .L ∧ lb = .L := by
+  cases la <;> cases lb <;> simp [Label.join] at h ⊢
+
+theorem lowEqV_int {l : Label} {a b : Int} (h : l = .L → a = b) : lowEqV l (.int a) (.int b) := by
+  cases l
+  · have := h rfl
+    subst this; rfl
+  · show (Val.int a).erase = (Val.int b).erase
+    rw [erase_int, erase_int]
+
+theorem lowEqV_L_int {a b : Int} (h : lowEqV .L (.int a) (.int b)) : a = b :=
+  Val.int.inj h
+
+theorem lowEqV_L_arr {a b : List Val} (h : lowEqV .L (.arr a) (.arr b)) : a = b :=
+  Val.arr.inj h
+
+theorem lowEqV_getElem? {l : Label} {l1 l2 : List Val} (h : lowEqV l (.arr l1) (.arr l2)) (k : Nat)
+    {v1 v2 : Val} (h1 : l1[k]? = some v1) (h2 : l2[k]? = some v2) : lowEqV l v1 v2 := by
+  cases l
+  · have := lowEqV_L_arr h
+    subst this
+    exact Option.some.inj (h1.symm.trans h2)
+  · exact eraseL_getElem? (eraseL_of_arr h) k h1 h2
+
+theorem lowEqV_getIdx {l : Label} {l1 l2 : List Val} (h : lowEqV l (.arr l1) (.arr l2)) (n : Int)
+    {v1 v2 : Val} (h1 : getIdx l1 n = some v1) (h2 : getIdx l2 n = some v2) : lowEqV l v1 v2 := by
+  cases l
+  · have := lowEqV_L_arr h
+    subst this
+    exact Option.some.inj (h1.symm.trans h2)
+  · exact eraseL_getIdx (eraseL_of_arr h) n h1 h2
+
+theorem lowEqV_slice {l : Label} {l1 l2 : List Val} (h : lowEqV l (.arr l1) (.arr l2)) (n m : Int)
+    {r1 r2 : List Val} (h1 : sliceList l1 n m = some r1) (h2 : sliceList l2 n m = some r2) :
+    lowEqV l (.arr r1) (.arr r2) := by
+  cases l
+  · have := lowEqV_L_arr h
+    subst this
+    have := Option.some.inj (h1.symm.trans h2)
+    subst this; rfl
+  · exact arr_of_eraseL (eraseL_slice (eraseL_of_arr h) n m h1 h2)
+
+theorem lowEqV_replicate {l : Label} {v1 v2 : Val} (h : lowEqV l v1 v2) (k : Nat) :
+    lowEqV l (.arr (List.replicate k v1)) (.arr (List.replicate k v2)) := by
+  cases l
+  · have : v1 = v2 := h
+    subst this; rfl
+  · apply arr_of_eraseL
+    have : v1.erase = v2.erase := h
+    rw [List.map_replicate, List.map_replicate, this]
+
+theorem lowEqV_cat {la lb : Label} {a1 a2 b1 b2 : List Val} (ha : lowEqV la (.arr a1) (.arr a2))
+    (hb : lowEqV lb (.arr b1) (.arr b2)) : lowEqV (la.join lb) (.arr (a1 ++ b1)) (.arr (a2 ++ b2)) := by
+  cases hj : la.join lb
+  · obtain ⟨rfl, rfl⟩ := join_eq_L hj
+    have h1 := lowEqV_L_arr ha
+    have h2 := lowEqV_L_arr hb
+    subst h1; subst h2; rfl
+  · apply arr_of_eraseL
+    rw [List.map_append, List.map_append, eraseL_of_arr (lowEqV_erase ha),
+      eraseL_of_arr (lowEqV_erase hb)]
+
+
+/-! ## Inversion of the evaluator and of the labelling -/
+
+section Inv
+variable {G : Nat → Val} {env : Env} {Γ : LEnv}
+
+theorem evalE_idx {a i : Expr} {v : Val} {t : Trace} (h : evalE G env (.idx a i) = some (v, t)) :
+    ∃ l t1 n t2, evalE G env a = some (.arr l, t1) ∧ evalE G env i = some (.int n, t2) ∧
+      getIdx l n = some v ∧ t = t1 ++ t2 ++ [.idx n] := by
+  simp only [evalE] at h
+  split at h
+  · rename_i l t1 n t2 ha hi
+    split at h
+    · rename_i v' hv
+      cases h
+      exact ⟨l, t1, n, t2, ha, hi, hv, rfl⟩
+    · cases h
+  · cases h
+
+theorem evalE_idxc {a : Expr} {k : Nat} {v : Val} {t : Trace}
+    (h : evalE G env (.idxc a k) = some (v, t)) :
+    ∃ l, evalE G env a = some (.arr l, t) ∧ l[k]? = some v := by
+  simp only [evalE] at h
+  split at h
+  · rename_i l t1 ha
+    split at h
+    · rename_i v' hv
+      cases h
+      exact ⟨l, ha, hv⟩
+    · cases h
+  · cases h
+
+theorem evalE_len {a : Expr} {v : Val} {t : Trace} (h : evalE G env (.len a) = some (v, t)) :
+    ∃ l, evalE G env a = some (.arr l, t) ∧ v = .int l.length := by
+  simp only [evalE] at h
+  split at h
+  · rename_i l t1 ha
+    cases h
+    exact ⟨l, ha, rfl⟩
+  · cases h
+
+theorem evalE_slice {a lo hi : Expr} {v : Val} {t : Trace}
+    (h : evalE G env (.slice a lo hi) = some (v, t)) :
+    ∃ l t1 n t2 m t3 r, evalE G env a = some (.arr l, t1) ∧ evalE G env lo = some (.int n, t2) ∧
+      evalE G env hi = some (.int m, t3) ∧ sliceList l n m = some r ∧ v = .arr r ∧
+      t = t1 ++ t2 ++ t3 ++ [.slice n m] := by
+  simp only [evalE] at h
+  split at h
+  · rename_i l t1 n t2 m t3 ha hlo hhi
+    split at h
+    · rename_i r hr
+      cases h
+      exact ⟨l, t1, n, t2, m, t3, r, ha, hlo, hhi, hr, rfl, rfl⟩
+    · cases h
+  · cases h
+
+theorem evalE_mk {n init : Expr} {v : Val} {t : Trace} (h : evalE G env (.mk n init) = some (v, t)) :
+    ∃ k t1 w t2, evalE G env n = some (.int k, t1) ∧ evalE G env init = some (w, t2) ∧
+      v = .arr (List.replicate k.toNat w) ∧ t = t1 ++ t2 ++ [.alloc k] := by
+  simp only [evalE] at h
+  split at h
+  · rename_i k t1 w t2 hn hi
+    split at h
+    · cases h
+    · cases h
+      exact ⟨k, t1, w, t2, hn, hi, rfl, rfl⟩
+  · cases h
+
+theorem evalE_cat {a b : Expr} {v : Val} {t : Trace} (h : evalE G env (.cat a b) = some (v, t)) :
+    ∃ l1 t1 l2 t2, evalE G env a = some (.arr l1, t1) ∧ evalE G env b = some (.arr l2, t2) ∧
+      v = .arr (l1 ++ l2) ∧ t = t1 ++ t2 := by
+  simp only [evalE] at h
+  split at h
+  · rename_i l1 t1 l2 t2 ha hb
+    cases h
+    exact ⟨l1, t1, l2, t2, ha, hb, rfl, rfl⟩
+  · cases h
+
+theorem evalE_cteq {a b : Expr} {v : Val} {t : Trace} (h : evalE G env (.cteq a b) = some (v, t)) :
+    ∃ l1 t1 l2 t2 r, evalE G env a = some (.arr l1, t1) ∧ evalE G env b = some (.arr l2, t2) ∧
+      ctEqList l1 l2 = some r ∧ v = .int r ∧ t = t1 ++ t2 := by
+  simp only [evalE] at h
+  split at h
+  · rename_i l1 t1 l2 t2 ha hb
+    split at h
+    · rename_i r hr
+      cases h
+      exact ⟨l1, t1, l2, t2, r, ha, hb, hr, rfl, rfl⟩
+    · cases h
+  · cases h
+
+theorem evalE_op1 {o : Op1} {a : Expr} {v : Val} {t : Trace}
+    (h : evalE G env (.op1 o a) = some (v, t)) :
+    ∃ n, evalE G env a = some (.int n, t) ∧ v = .int (evalOp1 o n) := by
+  simp only [evalE] at h
+  split at h
+  · rename_i n t1 ha
+    cases h
+    exact ⟨n, ha, rfl⟩
+  · cases h
+
+theorem evalE_op2 {o : Op2} {a b : Expr} {v : Val} {t : Trace}
+    (h : evalE G env (.op2 o a b) = some (v, t)) :
+    ∃ n t1 m t2 r, evalE G env a = some (.int n, t1) ∧ evalE G env b = some (.int m, t2) ∧
+      evalOp2 o n m = some r ∧ v = .int r ∧
+      t = t1 ++ t2 ++ (if o.isShift then [.shift m] else []) := by
+  simp only [evalE] at h
+  split at h
+  · rename_i n t1 m t2 ha hb
+    split at h
+    · rename_i r hr
+      cases h
+      exact ⟨n, t1, m, t2, r, ha, hb, hr, rfl, rfl⟩
+    · cases h
+  · cases h
+
+theorem evalE_op3 {o : Op3} {a b c : Expr} {v : Val} {t : Trace}
+    (h : evalE G env (.op3 o a b c) = some (v, t)) :
+    ∃ n t1 m t2 k t3, evalE G env a = some (.int n, t1) ∧ evalE G env b = some (.int m, t2) ∧
+      evalE G env c = some (.int k, t3) ∧ v = .int (evalOp3 o n m k) ∧ t = t1 ++ t2 ++ t3 := by
+  simp only [evalE] at h
+  split at h
+  · rename_i n t1 m t2 k t3 ha hb hc
+    cases h
+    exact ⟨n, t1, m, t2, k, t3, ha, hb, hc, rfl, rfl⟩
+  · cases h
+
+theorem labelE_idx {a i : Expr} {ℓ : Label} (h : labelE Γ (.idx a i) = some ℓ) :
+    labelE Γ a = some ℓ ∧ labelE Γ i = some .L := by
+  simp only [labelE] at h
+  split at h
+  · rename_i la ha hi
+    cases h
+    exact ⟨ha, hi⟩
+  · cases h
+
+theorem labelE_len {a : Expr} {ℓ : Label} (h : labelE Γ (.len a) = some ℓ) :
+    ℓ = .L ∧ ∃ la, labelE Γ a = some la := by
+  simp only [labelE] at h
+  split at h
+  · rename_i la ha
+    cases h
+    exact ⟨rfl, la, ha⟩
+  · cases h
+
+theorem labelE_slice {a lo hi : Expr} {ℓ : Label} (h : labelE Γ (.slice a lo hi) = some ℓ) :
+    labelE Γ a = some ℓ ∧ labelE Γ lo = some .L ∧ labelE Γ hi = some .L := by
+  simp only [labelE] at h
+  split at h
+  · rename_i la ha hlo hhi
+    cases h
+    exact ⟨ha, hlo, hhi⟩
+  · cases h
+
+theorem labelE_mk {n init : Expr} {ℓ : Label} (h : labelE Γ (.mk n init) = some ℓ) :
+    labelE Γ n = some .L ∧ labelE Γ init = some ℓ := by
+  simp only [labelE] at h
+  split at h
+  · rename_i li hn hi
+    cases h
+    exact ⟨hn, hi⟩
+  · cases h
+
+theorem labelE_cat {a b : Expr} {ℓ : Label} (h : labelE Γ (.cat a b) = some ℓ) :
+    ∃ la lb, labelE Γ a = some la ∧ labelE Γ b = some lb ∧ ℓ = la.join lb := by
+  simp only [labelE] at h
+  split at h
+  · rename_i la lb ha hb
+    cases h
+    exact ⟨la, lb, ha, hb, rfl⟩
+  · cases h
+
+theorem labelE_cteq {a b : Expr} {ℓ : Label} (h : labelE Γ (.cteq a b) = some ℓ) :
+    ∃ la lb, labelE Γ a = some la ∧ labelE Γ b = some lb ∧ ℓ = la.join lb := by
+  simp only [labelE] at h
+  split at h
+  · rename_i la lb ha hb
+    cases h
+    exact ⟨la, lb, ha, hb, rfl⟩
+  · cases h
+
+theorem labelE_op2 {o : Op2} {a b : Expr} {ℓ : Label} (h : labelE Γ (.op2 o a b) = some ℓ) :
+    ∃ la lb, labelE Γ a = some la ∧ labelE Γ b = some lb ∧ ℓ = la.join lb ∧
+      (o.isShift = true → lb = .L) := by
+  simp only [labelE] at h
+  split at h
+  · rename_i la lb ha hb
+    split at h
+    · cases h
+    · rename_i hs
+      cases h
+      refine ⟨la, lb, ha, hb, rfl, ?_⟩
+      intro ho
+      cases lb
+      · rfl
+      · exfalso; apply hs; simp [ho]
+  · cases h
+
+theorem labelE_op3 {o : Op3} {a b c : Expr} {ℓ : Label} (h : labelE Γ (.op3 o a b c) = some ℓ) :
+    ∃ la lb lc, labelE Γ a = some la ∧ labelE Γ b = some lb ∧ labelE Γ c = some lc ∧
+      ℓ = (la.join lb).join lc := by
+  simp only [labelE] at h
+  split at h
+  · rename_i la lb lc ha hb hc
+    cases h
+    exact ⟨la, lb, lc, ha, hb, hc, rfl⟩
+  · cases h
+
+end Inv
+
+
+/-! ## Expressions -/
+
+theorem evalE_sound (G : Nat → Val) (Γ : LEnv) (e1 e2 : Env) (hΓ : lowEqEnv Γ e1 e2) :
+    ∀ (e : Expr) (ℓ : Label) (v1 : Val) (t1 : Trace) (v2 : Val) (t2 : Trace),
+      labelE Γ e = some ℓ → evalE G e1 e = some (v1, t1) → evalE G e2 e = some (v2, t2) →
+      t1 = t2 ∧ lowEqV ℓ v1 v2 := by
+  intro e
+  induction e with
+  | lit n =>
+    intro ℓ v1 t1 v2 t2 _ h1 h2
+    simp only [evalE] at h1 h2
+    cases h1; cases h2
+    exact ⟨rfl, lowEqV_refl _ _⟩
+  | glob g =>
+    intro ℓ v1 t1 v2 t2 _ h1 h2
+    simp only [evalE] at h1 h2
+    cases h1; cases h2
+    exact ⟨rfl, lowEqV_refl _ _⟩
+  | var x =>
+    intro ℓ v1 t1 v2 t2 hl h1 h2
+    simp only [evalE] at h1 h2
+    simp only [labelE] at hl
+    cases h1; cases h2; cases hl
+    exact ⟨rfl, hΓ x⟩
+  | idx a i iha ihi =>
+    intro ℓ v1 t1 v2 t2 hl h1 h2
+    obtain ⟨l1, ta1, n1, ti1, ha1, hi1, hg1, rfl⟩ := evalE_idx h1
+    obtain ⟨l2, ta2, n2, ti2, ha2, hi2, hg2, rfl⟩ := evalE_idx h2
+    obtain ⟨hla, hli⟩ := labelE_idx hl
+    obtain ⟨rfl, hva⟩ := iha _ _ _ _ _ hla ha1 ha2
+    obtain ⟨rfl, hvi⟩ := ihi _ _ _ _ _ hli hi1 hi2
+    have := lowEqV_L_int hvi
+    subst this
+    exact ⟨rfl, lowEqV_getIdx hva _ hg1 hg2⟩
+  | idxc a k iha =>
+    intro ℓ v1 t1 v2 t2 hl h1 h2
+    obtain ⟨l1, ha1, hg1⟩ := evalE_idxc h1
+    obtain ⟨l2, ha2, hg2⟩ := evalE_idxc h2
+    have hla : labelE Γ a = some ℓ := by simpa only [labelE] using hl
+    obtain ⟨rfl, hva⟩ := iha _ _ _ _ _ hla ha1 ha2
+    exact ⟨rfl, lowEqV_getElem? hva _ hg1 hg2⟩
+  | len a iha =>
+    intro ℓ v1 t1 v2 t2 hl h1 h2
+    obtain ⟨l1, ha1, rfl⟩ := evalE_len h1
+    obtain ⟨l2, ha2, rfl⟩ := evalE_len h2
+    obtain ⟨rfl, la, hla⟩ := labelE_len hl
+    obtain ⟨rfl, hva⟩ := iha _ _ _ _ _ hla ha1 ha2
+    refine ⟨rfl, ?_⟩
+    have hlen : l1.length = l2.length := by
+      have := congrArg List.length (eraseL_of_arr (lowEqV_erase hva))
+      simpa only [List.length_map] using this
+    show Val.int _ = Val.int _
+    rw [hlen]
+  | slice a lo hi iha ihlo ihhi =>
+    intro ℓ v1 t1 v2 t2 hl h1 h2
+    obtain ⟨l1, ta1, n1, tl1, m1, th1, r1, ha1, hlo1, hhi1, hs1, rfl, rfl⟩ := evalE_slice h1
+    obtain ⟨l2, ta2, n2, tl2, m2, th2, r2, ha2, hlo2, hhi2, hs2, rfl, rfl⟩ := evalE_slice h2
+    obtain ⟨hla, hllo, hlhi⟩ := labelE_slice hl
+    obtain ⟨rfl, hva⟩ := iha _ _ _ _ _ hla ha1 ha2
+    obtain ⟨rfl, hvlo⟩ := ihlo _ _ _ _ _ hllo hlo1 hlo2
+    obtain ⟨rfl, hvhi⟩ := ihhi _ _ _ _ _ hlhi hhi1 hhi2
+    have := lowEqV_L_int hvlo
+    subst this
+    have := lowEqV_L_int hvhi
+    subst this
+    exact ⟨rfl, lowEqV_slice hva _ _ hs1 hs2⟩
+  | mk n init ihn ihi =>
+    intro ℓ v1 t1 v2 t2 hl h1 h2
+    obtain ⟨k1, tn1, w1, ti1, hn1, hi1, rfl, rfl⟩ := evalE_mk h1
+    obtain ⟨k2, tn2, w2, ti2, hn2, hi2, rfl, rfl⟩ := evalE_mk h2
+    obtain ⟨hln, hli⟩ := labelE_mk hl
+    obtain ⟨rfl, hvn⟩ := ihn _ _ _ _ _ hln hn1 hn2
+    obtain ⟨rfl, hvi⟩ := ihi _ _ _ _ _ hli hi1 hi2
+    have := lowEqV_L_int hvn
+    subst this
+    exact ⟨rfl, lowEqV_replicate hvi _⟩
+  | cat a b iha ihb =>
+    intro ℓ v1 t1 v2 t2 hl h1 h2
+    obtain ⟨l1, ta1, m1, tb1, ha1, hb1, rfl, rfl⟩ := evalE_cat h1
+    obtain ⟨l2, ta2, m2, tb2, ha2, hb2, rfl, rfl⟩ := evalE_cat h2
+    obtain ⟨la, lb, hla, hlb, rfl⟩ := labelE_cat hl
+    obtain ⟨rfl, hva⟩ := iha _ _ _ _ _ hla ha1 ha2
+    obtain ⟨rfl, hvb⟩ := ihb _ _ _ _ _ hlb hb1 hb2
+    exact ⟨rfl, lowEqV_cat hva hvb⟩
+  | cteq a b iha ihb =>
+    intro ℓ v1 t1 v2 t2 hl h1 h2
+    obtain ⟨l1, ta1, m1, tb1, r1, ha1, hb1, hr1, rfl, rfl⟩ := evalE_cteq h1
+    obtain ⟨l2, ta2, m2, tb2, r2, ha2, hb2, hr2, rfl, rfl⟩ := evalE_cteq h2
+    obtain ⟨la, lb, hla, hlb, rfl⟩ := labelE_cteq hl
+    obtain ⟨rfl, hva⟩ := iha _ _ _ _ _ hla ha1 ha2
+    obtain ⟨rfl, hvb⟩ := ihb _ _ _ _ _ hlb hb1 hb2
+    refine ⟨rfl, lowEqV_int ?_⟩
+    intro hj
+    obtain ⟨rfl, rfl⟩ := join_eq_L hj
+    have e1 := lowEqV_L_arr hva
+    have e2 := lowEqV_L_arr hvb
+    subst e1; subst e2
+    exact Option.some.inj (hr1.symm.trans hr2)
+  | op1 o a iha =>
+    intro ℓ v1 t1 v2 t2 hl h1 h2
+    obtain ⟨n1, ha1, rfl⟩ := evalE_op1 h1
+    obtain ⟨n2, ha2, rfl⟩ := evalE_op1 h2
+    have hla : labelE Γ a = some ℓ := by simpa only [labelE] using hl
+    obtain ⟨rfl, hva⟩ := iha _ _ _ _ _ hla ha1 ha2
+    refine ⟨rfl, lowEqV_int ?_⟩
+    intro hj
+    subst hj
+    rw [lowEqV_L_int hva]
+  | op2 o a b iha ihb =>
+    intro ℓ v1 t1 v2 t2 hl h1 h2
+    obtain ⟨n1, ta1, m1, tb1, r1, ha1, hb1, hr1, rfl, rfl⟩ := evalE_op2 h1
+    obtain ⟨n2, ta2, m2, tb2, r2, ha2, hb2, hr2, rfl, rfl⟩ := evalE_op2 h2
+    obtain ⟨la, lb, hla, hlb, rfl, hsh⟩ := labelE_op2 hl
+    obtain ⟨rfl, hva⟩ := iha _ _ _ _ _ hla ha1 ha2
+    obtain ⟨rfl, hvb⟩ := ihb _ _ _ _ _ hlb hb1 hb2
+    constructor
+    · cases hs : o.isShift
+      · simp
+      · have := hsh hs
+        subst this
+        rw [lowEqV_L_int hvb]
+    · apply lowEqV_int
+      intro hj
+      obtain ⟨rfl, rfl⟩ := join_eq_L hj
+      have e1 := lowEqV_L_int hva
+      have e2 := lowEqV_L_int hvb
+      subst e1; subst e2
+      exact Option.some.inj (hr1.symm.trans hr2)
+  | op3 o a b c iha ihb ihc =>
+    intro ℓ v1 t1 v2 t2 hl h1 h2
+    obtain ⟨n1, ta1, m1, tb1, k1, tc1, ha1, hb1, hc1, rfl, rfl⟩ := evalE_op3 h1
+    obtain ⟨n2, ta2, m2, tb2, k2, tc2, ha2, hb2, hc2, rfl, rfl⟩ := evalE_op3 h2
+    obtain ⟨la, lb, lc, hla, hlb, hlc, rfl⟩ := labelE_op3 hl
+    obtain ⟨rfl, hva⟩ := iha _ _ _ _ _ hla ha1 ha2
+    obtain ⟨rfl, hvb⟩ := ihb _ _ _ _ _ hlb hb1 hb2
+    obtain ⟨rfl, hvc⟩ := ihc _ _ _ _ _ hlc hc1 hc2
+    refine ⟨rfl, lowEqV_int ?_⟩
+    intro hj
+    obtain ⟨hj', rfl⟩ := join_eq_L hj
+    obtain ⟨rfl, rfl⟩ := join_eq_L hj'
+    rw [lowEqV_L_int hva, lowEqV_L_int hvb, lowEqV_L_int hvc]
+
+/-! ## Lists of values -/
+
+theorem lowEqList_eraseL : ∀ (ls : List Label) (a b : List Val), lowEqList ls a b →
+    a.map Val.erase = b.map Val.erase
+  | [], [], [], _ => rfl
+  | l :: ls, a :: as, b :: bs, h => by
+    obtain ⟨h1, h2⟩ := h
+    simp only [List.map_cons]
+    rw [lowEqV_erase h1, lowEqList_eraseL ls as bs h2]
+  | [], _ :: _, _, h => by cases h
+  | [], [], _ :: _, h => by cases h
+  | _ :: _, [], _, h => by cases h
+  | _ :: _, _ :: _, [], h => by cases h
+
+theorem lowEqList_allL : ∀ (n : Nat) (a b : List Val), lowEqList (List.replicate n .L) a b → a = b
+  | 0, [], [], _ => rfl
+  | n + 1, a :: as, b :: bs, h => by
+    obtain ⟨h1, h2⟩ := h
+    have : a = b := h1
+    rw [this, lowEqList_allL n as bs h2]
+  | 0, _ :: _, _, h => by cases h
+  | 0, [], _ :: _, h => by cases h
+  | _ + 1, [], _, h => by cases h
+  | _ + 1, _ :: _, [], h => by cases h
+
+theorem lowEqList_getD : ∀ (ls : List Label) (a b : List Val), lowEqList ls a b → ∀ (x : Nat),
+    x < ls.length → lowEqV (ls.getD x .H) (a.getD x (.int 0)) (b.getD x (.int 0))
+  | [], _, _, _, x, hx => by cases hx
+  | l :: ls, a :: as, b :: bs, h, x, hx => by
+    obtain ⟨h1, h2⟩ := h
+    cases x with
+    | zero => simpa using h1
+    | succ x =>
+      have := lowEqList_getD ls as bs h2 x (Nat.lt_of_succ_lt_succ hx)
+      simpa using this
+  | _ :: _, [], _, h, _, _ => by cases h
+  | _ :: _, _ :: _, [], h, _, _ => by cases h
+
+theorem lowEqList_length : ∀ (ls : List Label) (a b : List Val), lowEqList ls a b →
+    a.length = ls.length ∧ b.length = ls.length
+  | [], [], [], _ => ⟨rfl, rfl⟩
+  | l :: ls, a :: as, b :: bs, h => by
+    obtain ⟨_, h2⟩ := h
+    obtain ⟨h3, h4⟩ := lowEqList_length ls as bs h2
+    simp [h3, h4]
+  | [], _ :: _, _, h => by cases h
+  | [], [], _ :: _, h => by cases h
+  | _ :: _, [], _, h => by cases h
+  | _ :: _, _ :: _, [], h => by cases h
+
+theorem evalEs_sound (G : Nat → Val) (Γ : LEnv) (e1 e2 : Env) (hΓ : lowEqEnv Γ e1 e2) :
+    ∀ (es : List Expr) (ls : List Label) (vs1 : List Val) (t1 : Trace) (vs2 : List Val) (t2 : Trace),
+      checkEs Γ es ls = true → evalEs G e1 es = some (vs1, t1) → evalEs G e2 es = some (vs2, t2) →
+      t1 = t2 ∧ lowEqList ls vs1 vs2 := by
+  intro es
+  induction es with
+  | nil =>
+    intro ls vs1 t1 vs2 t2 hc h1 h2
+    simp only [evalEs] at h1 h2
+    cases h1; cases h2
+    cases ls with
+    | nil => exact ⟨rfl, trivial⟩
+    | cons l ls => simp [checkEs] at hc
+  | cons e es ih =>
+    intro ls vs1 t1 vs2 t2 hc h1 h2
+    cases ls with
+    | nil => simp [checkEs] at hc
+    | cons l ls =>
+      simp only [checkEs, Bool.and_eq_true] at hc
+      obtain ⟨hce, hces⟩ := hc
+      simp only [evalEs] at h1 h2
+      cases he1 : evalE G e1 e with
+      | none => simp [he1] at h1
+      | some p1 =>
+        obtain ⟨w1, u1⟩ := p1
+        cases hes1 : evalEs G e1 es with
+        | none => simp [he1, hes1] at h1
+        | some q1 =>
+          obtain ⟨ws1, us1⟩ := q1
+          cases he2 : evalE G e2 e with
+          | none => simp [he2] at h2
+          | some p2 =>
+            obtain ⟨w2, u2⟩ := p2
+            cases hes2 : evalEs G e2 es with
+            | none => simp [he2, hes2] at h2
+            | some q2 =>
+              obtain ⟨ws2, us2⟩ := q2
+              simp only [he1, hes1, he2, hes2, Option.some.injEq, Prod.mk.injEq] at h1 h2
+              obtain ⟨rfl, rfl⟩ := h1
+              obtain ⟨rfl, rfl⟩ := h2
+              cases hle : labelE Γ e with
+              | none => simp [hle] at hce
+              | some le =>
+                simp only [hle] at hce
+                obtain ⟨rfl, hv⟩ := evalE_sound G Γ e1 e2 hΓ e le _ _ _ _ hle he1 he2
+                obtain ⟨rfl, hvs⟩ := ih ls _ _ _ _ hces hes1 hes2
+                exact ⟨rfl, lowEqV_mono hce hv, hvs⟩
+
+theorem evalPath_sound (G : Nat → Val) (Γ : LEnv) (e1 e2 : Env) (hΓ : lowEqEnv Γ e1 e2) :
+    ∀ (p : List PathE) (ks1 : List Nat) (t1 : Trace) (ks2 : List Nat) (t2 : Trace),
+      checkPath Γ p = true → evalPath G e1 p = some (ks1, t1) → evalPath G e2 p = some (ks2, t2) →
+      ks1 = ks2 ∧ t1 = t2 := by
+  intro p
+  induction p with
+  | nil =>
+    intro ks1 t1 ks2 t2 _ h1 h2
+    simp only [evalPath] at h1 h2
+    cases h1; cases h2
+    exact ⟨rfl, rfl⟩
+  | cons st p ih =>
+    intro ks1 t1 ks2 t2 hc h1 h2
+    cases st with
+    | c k =>
+      simp only [checkPath] at hc
+      simp only [evalPath] at h1 h2
+      cases hp1 : evalPath G e1 p with
+      | none => simp [hp1] at h1
+      | some q1 =>
+        obtain ⟨js1, u1⟩ := q1
+        cases hp2 : evalPath G e2 p with
+        | none => simp [hp2] at h2
+        | some q2 =>
+          obtain ⟨js2, u2⟩ := q2
+          simp only [hp1, hp2, Option.some.injEq, Prod.mk.injEq] at h1 h2
+          obtain ⟨rfl, rfl⟩ := h1
+          obtain ⟨rfl, rfl⟩ := h2
+          obtain ⟨rfl, rfl⟩ := ih _ _ _ _ hc hp1 hp2
+          exact ⟨rfl, rfl⟩
+    | e i =>
+      simp only [checkPath, Bool.and_eq_true, beq_iff_eq] at hc
+      obtain ⟨hli, hcp⟩ := hc
+      simp only [evalPath] at h1 h2
+      cases hi1 : evalE G e1 i with
+      | none => simp [hi1] at h1
+      | some p1 =>
+        obtain ⟨w1, u1⟩ := p1
+        cases hi2 : evalE G e2 i with
+        | none => simp [hi2] at h2
+        | some p2 =>
+          obtain ⟨w2, u2⟩ := p2
+          obtain ⟨rfl, hv⟩ := evalE_sound G Γ e1 e2 hΓ i .L _ _ _ _ hli hi1 hi2
+          have : w1 = w2 := hv
+          subst this
+          cases w1 with
+          | arr l => simp [hi1] at h1
+          | int n =>
+            cases hp1 : evalPath G e1 p with
+            | none => simp [hi1, hp1] at h1
+            | some q1 =>
+              obtain ⟨js1, v1⟩ := q1
+              cases hp2 : evalPath G e2 p with
+              | none => simp [hi2, hp2] at h2
+              | some q2 =>
+                obtain ⟨js2, v2⟩ := q2
+                obtain ⟨rfl, rfl⟩ := ih _ _ _ _ hcp hp1 hp2
+                simp only [hi1, hp1, hi2, hp2] at h1 h2
+                split at h1
+                · cases h1
+                · rename_i hn
+                  rw [if_neg hn] at h2
+                  cases h1; cases h2
+                  exact ⟨rfl, rfl⟩
+
+
+/-! ## Divergence at a verdict -/
+
+theorem Div.append_left {t1 t2 : Trace} (p : Trace) (h : Div t1 t2) : Div (p ++ t1) (p ++ t2) := by
+  obtain ⟨q, s, v1, v2, r1, r2, hv, rfl, rfl⟩ := h
+  exact ⟨p ++ q, s, v1, v2, r1, r2, hv, by simp, by simp⟩
+
+theorem Div.append_right {t1 t2 : Trace} (u1 u2 : Trace) (h : Div t1 t2) :
+    Div (t1 ++ u1) (t2 ++ u2) := by
+  obtain ⟨q, s, v1, v2, r1, r2, hv, rfl, rfl⟩ := h
+  exact ⟨q, s, v1, v2, r1 ++ u1, r2 ++ u2, hv, by simp, by simp⟩
+
+theorem Div.cons {t1 t2 : Trace} (e : Event) (h : Div t1 t2) : Div (e :: t1) (e :: t2) :=
+  Div.append_left [e] h
+
+theorem declassOf_append (a b : Trace) : declassOf (a ++ b) = declassOf a ++ declassOf b := by
+  induction a with
+  | nil => rfl
+  | cons e a ih =>
+    cases e <;> simp [declassOf, ih]
+
+theorem Div.declass_ne {t1 t2 : Trace} (h : Div t1 t2) : declassOf t1 ≠ declassOf t2 := by
+  obtain ⟨q, s, v1, v2, r1, r2, hv, rfl, rfl⟩ := h
+  intro he
+  rw [declassOf_append, declassOf_append] at he
+  have := List.append_cancel_left he
+  simp only [declassOf, List.cons.injEq, Prod.mk.injEq, true_and] at this
+  exact hv this.1
+
+/-! ## Environments -/
+
+theorem lowEqEnv_set {Γ : LEnv} {e1 e2 : Env} (h : lowEqEnv Γ e1 e2) (x : Nat) {v1 v2 : Val}
+    (hv : lowEqV (Γ.get x) v1 v2) : lowEqEnv Γ (e1.set x v1) (e2.set x v2) := by
+  intro y
+  unfold Env.set
+  by_cases hy : y = x
+  · subst hy; simpa using hv
+  · simpa [hy] using h y
+
+theorem setMany_length : ∀ (lhs : List Nat) (vs : List Val) (e e' : Env),
+    e.setMany lhs vs = some e' → lhs.length = vs.length
+  | [], [], _, _, _ => rfl
+  | x :: xs, v :: vs, e, e', h => by
+    simp only [Env.setMany] at h
+    simp [setMany_length xs vs _ _ h]
+  | [], _ :: _, _, _, h => by simp [Env.setMany] at h
+  | _ :: _, [], _, _, h => by simp [Env.setMany] at h
+
+theorem checkLhs_length {Γ : LEnv} : ∀ (lhs : List Nat) (ls : List Label),
+    checkLhs Γ lhs ls = true → lhs.length = ls.length
+  | [], [], _ => rfl
+  | x :: xs, l :: ls, h => by
+    simp only [checkLhs, Bool.and_eq_true] at h
+    simp [checkLhs_length xs ls h.2]
+  | [], _ :: _, h => by simp [checkLhs] at h
+  | _ :: _, [], h => by simp [checkLhs] at h
+
+theorem lowEqEnv_setMany {Γ : LEnv} : ∀ (lhs : List Nat) (ls : List Label) (vs1 vs2 : List Val)
+    (e1 e2 e1' e2' : Env), checkLhs Γ lhs ls = true → lowEqList ls vs1 vs2 → lowEqEnv Γ e1 e2 →
+    e1.setMany lhs vs1 = some e1' → e2.setMany lhs vs2 = some e2' → lowEqEnv Γ e1' e2'
+  | [], [], [], [], e1, e2, e1', e2', _, _, hΓ, h1, h2 => by
+    simp only [Env.setMany] at h1 h2
+    cases h1; cases h2; exact hΓ
+  | x :: xs, l :: ls, v1 :: vs1, v2 :: vs2, e1, e2, e1', e2', hc, hv, hΓ, h1, h2 => by
+    simp only [checkLhs, Bool.and_eq_true] at hc
+    simp only [Env.setMany] at h1 h2
+    obtain ⟨hv1, hvs⟩ := hv
+    exact lowEqEnv_setMany xs ls vs1 vs2 _ _ e1' e2' hc.2 hvs
+      (lowEqEnv_set hΓ x (lowEqV_mono hc.1 hv1)) h1 h2
+  | [], _ :: _, _, _, _, _, _, _, hc, _, _, _, _ => by simp [checkLhs] at hc
+  | _ :: _, [], _, _, _, _, _, _, hc, _, _, _, _ => by simp [checkLhs] at hc
+  | [], [], _ :: _, _, _, _, _, _, _, hv, _, _, _ => by cases hv
+  | [], [], [], _ :: _, _, _, _, _, _, hv, _, _, _ => by cases hv
+  | _ :: _, _ :: _, [], _, _, _, _, _, _, hv, _, _, _ => by cases hv
+  | _ :: _, _ :: _, _ :: _, [], _, _, _, _, _, hv, _, _, _ => by cases hv
+
+theorem lowEqList_allH : ∀ (ls : List Label) (a b : List Val), allH ls = true →
+    a.map Val.erase = b.map Val.erase → a.length = ls.length → lowEqList ls a b
+  | [], [], [], _, _, _ => trivial
+  | l :: ls, a :: as, b :: bs, h, he, hl => by
+    simp only [allH, Bool.and_eq_true, beq_iff_eq] at h
+    simp only [List.map_cons, List.cons.injEq] at he
+    simp only [List.length_cons, Nat.add_right_cancel_iff] at hl
+    obtain ⟨rfl, hls⟩ := h
+    exact ⟨he.1, lowEqList_allH ls as bs hls he.2 hl⟩
+  | [], _ :: _, _, _, _, hl => by simp at hl
+  | [], [], _ :: _, _, he, _ => by simp at he
+  | _ :: _, [], _, _, _, hl => by simp at hl
+  | _ :: _, _ :: _, [], _, he, _ => by simp at he
+
+theorem lowEqEnv_ofList (Γ' : LEnv) (params : List Label) (n : Nat) (htake : Γ'.take n = params)
+    (hlen : params.length = n) (vs1 vs2 : List Val) (h : lowEqList params vs1 vs2) :
+    lowEqEnv Γ' (Env.ofList vs1) (Env.ofList vs2) := by
+  intro x
+  unfold Env.ofList LEnv.get
+  obtain ⟨hl1, hl2⟩ := lowEqList_length _ _ _ h
+  by_cases hx : x < n
+  · have hg : Γ'.getD x .H = params.getD x .H := by
+      rw [← htake]
+      simp only [List.getD_eq_getElem?_getD, List.getElem?_take, hx, if_true]
+    rw [hg]
+    exact lowEqList_getD _ _ _ h x (hlen ▸ hx)
+  · have h1 : vs1.getD x (.int 0) = .int 0 := by
+      rw [List.getD_eq_getElem?_getD, List.getElem?_eq_none (by omega)]; rfl
+    have h2 : vs2.getD x (.int 0) = .int 0 := by
+      rw [List.getD_eq_getElem?_getD, List.getElem?_eq_none (by omega)]; rfl
+    rw [h1, h2]
+    exact lowEqV_refl _ _
+
+theorem checkAll_get (P : Prog) (S : Sigs) : ∀ (fns : List Fn) (g0 : Nat),
+    checkAll P S g0 fns = true → ∀ (i : Nat) (fn : Fn), fns[i]? = some fn →
+    checkFn P S (g0 + i) fn = true
+  | [], _, _, i, fn, h => by simp at h
+  | f :: fns, g0, hc, i, fn, h => by
+    simp only [checkAll, Bool.and_eq_true] at hc
+    cases i with
+    | zero =>
+      simp only [List.getElem?_cons_zero, Option.some.injEq] at h
+      subst h
+      simpa using hc.1
+    | succ i =>
+      simp only [List.getElem?_cons_succ] at h
+      have := checkAll_get P S fns (g0 + 1) hc.2 i fn h
+      have e : g0 + (i + 1) = g0 + 1 + i := by omega
+      rw [e]; exact this
+
+/-- what `checkAll` gives for a real function: its body is well-labelled under the inferred
+    environment, which agrees with the signature on the parameters -/
+theorem checkAll_fn {P : Prog} {S : Sigs} (hP : checkAll P S 0 P = true) {g : Nat} {fn : Fn} {fs : FnSig}
+    (hfn : P[g]? = some fn) (hfs : S.fn[g]? = some fs) (hstub : fn.stub = false) :
+    fs.params.length = fn.nparams ∧ (gammaOf S fs fn).take fn.nparams = fs.params ∧
+    checkS P S (gammaOf S fs fn) fs.results fs.declass fn.body = true := by
+  have h := checkAll_get P S P 0 hP g fn hfn
+  simp only [Nat.zero_add, checkFn, hstub, hfs, Bool.false_or, Bool.and_eq_true, beq_iff_eq] at h
+  exact ⟨h.1.1, h.1.2, h.2⟩
+
+
+/-! ## Inversion of the interpreter -/
+
+section ExecInv
+variable {P : Prog} {G : Nat → Val} {X : Oracle} {f : Nat} {env : Env} {r : Res}
+
+theorem exec_assign_inv {x : Nat} {p : List PathE} {e : Expr}
+    (h : exec P G X (f + 1) env (.assign x p e) = some r) :
+    ∃ v t1 ks t2 n, evalE G env e = some (v, t1) ∧ evalPath G env p = some (ks, t2) ∧
+      updPath (env x) ks v = some n ∧ r = (env.set x n, .norm, t1 ++ t2) := by
+  simp only [exec] at h
+  split at h
+  · rename_i v t1 ks t2 he hp
+    split at h
+    · rename_i n hn
+      cases h
+      exact ⟨v, t1, ks, t2, n, he, hp, hn, rfl⟩
+    · cases h
+  · cases h
+
+theorem exec_declass_inv {x site : Nat} {e : Expr}
+    (h : exec P G X (f + 1) env (.declass x site e) = some r) :
+    ∃ n t1, evalE G env e = some (.int n, t1) ∧
+      r = (env.set x (.int n), .norm, t1 ++ [.declass site n]) := by
+  simp only [exec] at h
+  split at h
+  · rename_i n t1 he
+    cases h
+    exact ⟨n, t1, he, rfl⟩
+  · cases h
+
+theorem exec_ret_inv {es : List Expr} (h : exec P G X (f + 1) env (.ret es) = some r) :
+    ∃ vs t, evalEs G env es = some (vs, t) ∧ r = (env, .ret vs, t) := by
+  simp only [exec] at h
+  split at h
+  · rename_i vs t he
+    cases h
+    exact ⟨vs, t, he, rfl⟩
+  · cases h
+
+theorem exec_seq_inv {a b : Stmt} (h : exec P G X (f + 1) env (.seq a b) = some r) :
+    ∃ env1 c1 t1, exec P G X f env a = some (env1, c1, t1) ∧ (∃ u, r.2.2 = t1 ++ u) ∧
+      ((c1 = .norm ∧ ∃ env2 c2 t2, exec P G X f env1 b = some (env2, c2, t2) ∧
+          r = (env2, c2, t1 ++ t2)) ∨
+       (c1 ≠ .norm ∧ r = (env1, c1, t1))) := by
+  simp only [exec] at h
+  split at h
+  · rename_i env1 t1 ha
+    split at h
+    · rename_i env2 c2 t2 hb
+      cases h
+      exact ⟨env1, .norm, t1, ha, ⟨t2, rfl⟩, Or.inl ⟨rfl, env2, c2, t2, hb, rfl⟩⟩
+    · cases h
+  · rename_i r' hne ha
+    cases h
+    obtain ⟨env1, c1, t1⟩ := r
+    refine ⟨env1, c1, t1, ha, ⟨[], by simp⟩, Or.inr ⟨?_, rfl⟩⟩
+    intro hc
+    subst hc
+    exact hne _ _ rfl
+  · cases h
+
+theorem exec_ite_inv {c : Expr} {a b : Stmt} (h : exec P G X (f + 1) env (.ite c a b) = some r) :
+    ∃ v t0 d env1 c1 t1, evalE G env c = some (v, t0) ∧ asBool v = some d ∧
+      exec P G X f env (if d then a else b) = some (env1, c1, t1) ∧
+      r = (env1, c1, t0 ++ .branch d :: t1) := by
+  simp only [exec] at h
+  split at h
+  · rename_i v t0 hc
+    split at h
+    · rename_i d hd
+      split at h
+      · rename_i env1 c1 t1 hx
+        cases h
+        exact ⟨v, t0, d, env1, c1, t1, hc, hd, hx, rfl⟩
+      · cases h
+    · cases h
+  · cases h
+
+/-- what a loop does with the control signal of its body: `some c'` = leave the loop with `c'` -/
+def loopExit : Ctl → Option Ctl
+  | .brk => some .norm
+  | .ret vs => some (.ret vs)
+  | .panic => some .panic
+  | _ => none
+
+theorem exec_loop_inv {c : Expr} {body post : Stmt}
+    (h : exec P G X (f + 1) env (.loop c body post) = some r) :
+    ∃ v t0 d, evalE G env c = some (v, t0) ∧ asBool v = some d ∧
+      ((d = false ∧ r = (env, .norm, t0 ++ [.loopc false])) ∨
+       (d = true ∧ ∃ env1 c1 t1, exec P G X f env body = some (env1, c1, t1) ∧
+          (∃ u, r.2.2 = t0 ++ .loopc true :: (t1 ++ u)) ∧
+          ((∃ c', loopExit c1 = some c' ∧ r = (env1, c', t0 ++ .loopc true :: t1)) ∨
+           (loopExit c1 = none ∧ ∃ env2 t2 env3 c3 t3,
+              exec P G X f env1 post = some (env2, .norm, t2) ∧
+              exec P G X f env2 (.loop c body post) = some (env3, c3, t3) ∧
+              r = (env3, c3, t0 ++ .loopc true :: (t1 ++ (t2 ++ t3))))))) := by
+  simp only [exec] at h
+  cases hc : evalE G env c with
+  | none => simp [hc] at h
+  | some q =>
+    obtain ⟨v, t0⟩ := q
+    simp only [hc] at h
+    cases hd : asBool v with
+    | none => simp [hd] at h
+    | some d =>
+      refine ⟨v, t0, d, rfl, hd, ?_⟩
+      cases d with
+      | false =>
+        simp only [hd] at h
+        cases h
+        exact Or.inl ⟨rfl, rfl⟩
+      | true =>
+        simp only [hd] at h
+        refine Or.inr ⟨rfl, ?_⟩
+        cases hb : exec P G X f env body with
+        | none => simp [hb] at h
+        | some q1 =>
+          obtain ⟨env1, c1, t1⟩ := q1
+          refine ⟨env1, c1, t1, rfl, ?_⟩
+          have tail : ∀ (hx : (match exec P G X f env1 post with
+                | some (env2, .norm, t2) =>
+                  match exec P G X f env2 (.loop c body post) with
+                  | some (env3, c3, t3) => some (env3, c3, t0 ++ .loopc true :: (t1 ++ (t2 ++ t3)))
+                  | none => none
+                | _ => none) = some r),
+              ∃ env2 t2 env3 c3 t3,
+                exec P G X f env1 post = some (env2, .norm, t2) ∧
+                exec P G X f env2 (.loop c body post) = some (env3, c3, t3) ∧
+                r = (env3, c3, t0 ++ .loopc true :: (t1 ++ (t2 ++ t3))) := by
+            intro hx
+            split at hx
+            · rename_i env2 t2 hp
+              split at hx
+              · rename_i env3 c3 t3 hl
+                cases hx
+                exact ⟨env2, t2, env3, c3, t3, hp, hl, rfl⟩
+              · cases hx
+            · cases hx
+          cases c1 with
+          | brk =>
+            simp only [hb] at h
+            cases h
+            exact ⟨⟨[], by simp⟩, Or.inl ⟨_, rfl, rfl⟩⟩
+          | ret vs =>
+            simp only [hb] at h
+            cases h
+            exact ⟨⟨[], by simp⟩, Or.inl ⟨_, rfl, rfl⟩⟩
+          | panic =>
+            simp only [hb] at h
+            cases h
+            exact ⟨⟨[], by simp⟩, Or.inl ⟨_, rfl, rfl⟩⟩
+          | norm =>
+            simp only [hb] at h
+            obtain ⟨env2, t2, env3, c3, t3, hp, hl, rfl⟩ := tail h
+            exact ⟨⟨t2 ++ t3, rfl⟩, Or.inr ⟨rfl, env2, t2, env3, c3, t3, hp, hl, rfl⟩⟩
+          | cont =>
+            simp only [hb] at h
+            obtain ⟨env2, t2, env3, c3, t3, hp, hl, rfl⟩ := tail h
+            exact ⟨⟨t2 ++ t3, rfl⟩, Or.inr ⟨rfl, env2, t2, env3, c3, t3, hp, hl, rfl⟩⟩
+
+theorem exec_call_inv {lhs : List Nat} {g : Nat} {args : List Expr}
+    (h : exec P G X (f + 1) env (.call lhs g args) = some r) :
+    ∃ vs t0 fn envc cc t1, evalEs G env args = some (vs, t0) ∧ P[g]? = some fn ∧ fn.stub = false ∧
+      vs.length = fn.nparams ∧ exec P G X f (Env.ofList vs) fn.body = some (envc, cc, t1) ∧
+      r.2.2 = t0 ++ .call g :: t1 ∧
+      ((∃ rs env1, cc = .ret rs ∧ env.setMany lhs rs = some env1 ∧
+          r = (env1, .norm, t0 ++ .call g :: t1)) ∨
+       (cc = .panic ∧ r = (env, .panic, t0 ++ .call g :: t1))) := by
+  simp only [exec] at h
+  split at h
+  · rename_i vs t0 fn he hfn
+    split at h
+    · cases h
+    · rename_i hcond
+      simp only [Bool.or_eq_true, bne_iff_ne, ne_eq, not_or, Bool.not_eq_true, Decidable.not_not]
+        at hcond
+      split at h
+      · rename_i envc rs t1 hx
+        split at h
+        · rename_i env1 hs
+          cases h
+          exact ⟨vs, t0, fn, envc, _, t1, he, hfn, hcond.1, hcond.2, hx, rfl,
+            Or.inl ⟨rs, env1, rfl, hs, rfl⟩⟩
+        · cases h
+      · rename_i envc t1 hx
+        cases h
+        exact ⟨vs, t0, fn, envc, _, t1, he, hfn, hcond.1, hcond.2, hx, rfl, Or.inr ⟨rfl, rfl⟩⟩
+      · cases h
+  · cases h
+
+theorem exec_ext_inv {lhs : List Nat} {name : Nat} {leaky : Bool} {args : List Expr}
+    (h : exec P G X (f + 1) env (.ext lhs name leaky args) = some r) :
+    ∃ vs t0 env1, evalEs G env args = some (vs, t0) ∧ env.setMany lhs (X name vs) = some env1 ∧
+      r = (env1, .norm, t0 ++ [if leaky then .ext name vs else .obs name]) := by
+  simp only [exec] at h
+  split at h
+  · rename_i vs t0 he
+    split at h
+    · rename_i env1 hs
+      cases h
+      exact ⟨vs, t0, env1, he, hs, rfl⟩
+    · cases h
+  · cases h
+
+end ExecInv
+
+
+/-! ## Statements -/
+
+/-- the relation between the results of the two runs -/
+def Concl (Γ : LEnv) (res : List Label) (r1 r2 : Res) : Prop :=
+  Div r1.2.2 r2.2.2 ∨ (r1.2.2 = r2.2.2 ∧ lowEqEnv Γ r1.1 r2.1 ∧ CtlRel res r1.2.1 r2.2.1)
+
+/-- the invariant for first runs with fuel `f1` -/
+def SoundAt (P : Prog) (S : Sigs) (G : Nat → Val) (X1 X2 : Oracle) (f1 : Nat) : Prop :=
+  ∀ (f2 : Nat) (Γ : LEnv) (res : List Label) (allowed : List Nat) (s : Stmt) (e1 e2 : Env)
+    (r1 r2 : Res),
+    checkS P S Γ res allowed s = true → lowEqEnv Γ e1 e2 →
+    exec P G X1 f1 e1 s = some r1 → exec P G X2 f2 e2 s = some r2 → Concl Γ res r1 r2
+
+theorem CtlRel_norm_iff {res : List Label} {c1 c2 : Ctl} (h : CtlRel res c1 c2) :
+    c1 = .norm ↔ c2 = .norm := by
+  cases c1 <;> cases c2 <;> first | exact False.elim h | simp
+
+theorem CtlRel_loopExit {res : List Label} {c1 c2 : Ctl} (h : CtlRel res c1 c2) :
+    (loopExit c1 = none ∧ loopExit c2 = none) ∨
+    ∃ c1' c2', loopExit c1 = some c1' ∧ loopExit c2 = some c2' ∧ CtlRel res c1' c2' := by
+  cases c1 <;> cases c2 <;> first
+    | exact False.elim h
+    | exact Or.inl ⟨rfl, rfl⟩
+    | exact Or.inr ⟨_, _, rfl, rfl, h⟩
+    | exact Or.inr ⟨_, _, rfl, rfl, trivial⟩
+
+section Sound
+variable {P : Prog} {S : Sigs} {G : Nat → Val} {X1 X2 : Oracle} {f1 f2 : Nat} {Γ : LEnv}
+  {res : List Label} {allowed : List Nat} {e1 e2 : Env} {r1 r2 : Res}
+
+theorem sound_assign {x : Nat} {p : List PathE} {e : Expr}
+    (hc : checkS P S Γ res allowed (.assign x p e) = true) (hΓ : lowEqEnv Γ e1 e2)
+    (h1 : exec P G X1 (f1 + 1) e1 (.assign x p e) = some r1)
+    (h2 : exec P G X2 (f2 + 1) e2 (.assign x p e) = some r2) : Concl Γ res r1 r2 := by
+  simp only [checkS, Bool.and_eq_true] at hc
+  obtain ⟨hcp, hce⟩ := hc
+  obtain ⟨v1, t1, ks1, u1, n1, he1, hp1, hu1, rfl⟩ := exec_assign_inv h1
+  obtain ⟨v2, t2, ks2, u2, n2, he2, hp2, hu2, rfl⟩ := exec_assign_inv h2
+  cases hle : labelE Γ e with
+  | none => simp [hle] at hce
+  | some le =>
+    simp only [hle] at hce
+    obtain ⟨rfl, hv⟩ := evalE_sound G Γ e1 e2 hΓ e le _ _ _ _ hle he1 he2
+    obtain ⟨rfl, rfl⟩ := evalPath_sound G Γ e1 e2 hΓ p _ _ _ _ hcp hp1 hp2
+    right
+    refine ⟨rfl, lowEqEnv_set hΓ x ?_, trivial⟩
+    have hv' := lowEqV_mono hce hv
+    have hx := hΓ x
+    generalize Γ.get x = lx at hv' hx ⊢
+    cases lx
+    · have ev : v1 = v2 := hv'
+      have ex : e1 x = e2 x := hx
+      rw [ev, ex] at hu1
+      exact Option.some.inj (hu1.symm.trans hu2)
+    · exact erase_updPath ks1 _ _ _ _ _ _ hx hv' hu1 hu2
+
+theorem sound_declass {x site : Nat} {e : Expr}
+    (hc : checkS P S Γ res allowed (.declass x site e) = true) (hΓ : lowEqEnv Γ e1 e2)
+    (h1 : exec P G X1 (f1 + 1) e1 (.declass x site e) = some r1)
+    (h2 : exec P G X2 (f2 + 1) e2 (.declass x site e) = some r2) : Concl Γ res r1 r2 := by
+  simp only [checkS, Bool.and_eq_true] at hc
+  obtain ⟨⟨_, hsome⟩, _⟩ := hc
+  obtain ⟨n1, t1, he1, rfl⟩ := exec_declass_inv h1
+  obtain ⟨n2, t2, he2, rfl⟩ := exec_declass_inv h2
+  cases hle : labelE Γ e with
+  | none => simp [hle] at hsome
+  | some le =>
+    obtain ⟨rfl, _⟩ := evalE_sound G Γ e1 e2 hΓ e le _ _ _ _ hle he1 he2
+    by_cases hn : n1 = n2
+    · subst hn
+      right
+      exact ⟨rfl, lowEqEnv_set hΓ x (lowEqV_refl _ _), trivial⟩
+    · left
+      exact ⟨t1, site, n1, n2, [], [], hn, rfl, rfl⟩
+
+theorem sound_ret {es : List Expr}
+    (hc : checkS P S Γ res allowed (.ret es) = true) (hΓ : lowEqEnv Γ e1 e2)
+    (h1 : exec P G X1 (f1 + 1) e1 (.ret es) = some r1)
+    (h2 : exec P G X2 (f2 + 1) e2 (.ret es) = some r2) : Concl Γ res r1 r2 := by
+  simp only [checkS] at hc
+  obtain ⟨vs1, t1, he1, rfl⟩ := exec_ret_inv h1
+  obtain ⟨vs2, t2, he2, rfl⟩ := exec_ret_inv h2
+  obtain ⟨rfl, hvs⟩ := evalEs_sound G Γ e1 e2 hΓ es res _ _ _ _ hc he1 he2
+  right
+  exact ⟨rfl, hΓ, hvs⟩
+
+theorem sound_seq (ih : SoundAt P S G X1 X2 f1) {a b : Stmt}
+    (hc : checkS P S Γ res allowed (.seq a b) = true) (hΓ : lowEqEnv Γ e1 e2)
+    (h1 : exec P G X1 (f1 + 1) e1 (.seq a b) = some r1)
+    (h2 : exec P G X2 (f2 + 1) e2 (.seq a b) = some r2) : Concl Γ res r1 r2 := by
+  simp only [checkS, Bool.and_eq_true] at hc
+  obtain ⟨env1, c1, t1, ha1, ⟨u1, hu1⟩, hr1⟩ := exec_seq_inv h1
+  obtain ⟨env2, c2, t2, ha2, ⟨u2, hu2⟩, hr2⟩ := exec_seq_inv h2
+  rcases ih f2 Γ res allowed a e1 e2 _ _ hc.1 hΓ ha1 ha2 with hd | ⟨ht, hE, hC⟩
+  · left
+    rw [hu1, hu2]
+    exact hd.append_right _ _
+  · simp only at ht hE hC
+    subst ht
+    have hnn := CtlRel_norm_iff hC
+    rcases hr1 with ⟨hn1, env1', c1', t1', hb1, rfl⟩ | ⟨hn1, rfl⟩
+    · rcases hr2 with ⟨_, env2', c2', t2', hb2, rfl⟩ | ⟨hn2, _⟩
+      · rcases ih f2 Γ res allowed b env1 env2 _ _ hc.2 hE hb1 hb2 with hd | ⟨ht, hE', hC'⟩
+        · left
+          exact hd.append_left _
+        · right
+          simp only at ht hE' hC' ⊢
+          subst ht
+          exact ⟨rfl, hE', hC'⟩
+      · exact absurd (hnn.1 hn1) hn2
+    · rcases hr2 with ⟨hn2, _⟩ | ⟨_, rfl⟩
+      · exact absurd (hnn.2 hn2) hn1
+      · right
+        exact ⟨rfl, hE, hC⟩
+
+theorem sound_ite (ih : SoundAt P S G X1 X2 f1) {c : Expr} {a b : Stmt}
+    (hc : checkS P S Γ res allowed (.ite c a b) = true) (hΓ : lowEqEnv Γ e1 e2)
+    (h1 : exec P G X1 (f1 + 1) e1 (.ite c a b) = some r1)
+    (h2 : exec P G X2 (f2 + 1) e2 (.ite c a b) = some r2) : Concl Γ res r1 r2 := by
+  simp only [checkS, Bool.and_eq_true, beq_iff_eq] at hc
+  obtain ⟨⟨hlc, hca⟩, hcb⟩ := hc
+  obtain ⟨v1, t01, d1, env1, c1, t1, hc1, hd1, hx1, rfl⟩ := exec_ite_inv h1
+  obtain ⟨v2, t02, d2, env2, c2, t2, hc2, hd2, hx2, rfl⟩ := exec_ite_inv h2
+  obtain ⟨rfl, hv⟩ := evalE_sound G Γ e1 e2 hΓ c .L _ _ _ _ hlc hc1 hc2
+  have ev : v1 = v2 := hv
+  subst ev
+  have ed : d1 = d2 := Option.some.inj (hd1.symm.trans hd2)
+  subst ed
+  have hcs : checkS P S Γ res allowed (if d1 then a else b) = true := by
+    cases d1
+    · simpa using hcb
+    · simpa using hca
+  rcases ih f2 Γ res allowed _ e1 e2 _ _ hcs hΓ hx1 hx2 with hd | ⟨ht, hE, hC⟩
+  · left
+    exact (hd.cons _).append_left _
+  · right
+    simp only at ht hE hC ⊢
+    subst ht
+    exact ⟨rfl, hE, hC⟩
+
+theorem sound_loop (ih : SoundAt P S G X1 X2 f1) {c : Expr} {body post : Stmt}
+    (hc0 : checkS P S Γ res allowed (.loop c body post) = true) (hΓ : lowEqEnv Γ e1 e2)
+    (h1 : exec P G X1 (f1 + 1) e1 (.loop c body post) = some r1)
+    (h2 : exec P G X2 (f2 + 1) e2 (.loop c body post) = some r2) : Concl Γ res r1 r2 := by
+  have hc := hc0
+  simp only [checkS, Bool.and_eq_true, beq_iff_eq] at hc
+  obtain ⟨⟨hlc, hcb⟩, hcp⟩ := hc
+  obtain ⟨v1, t01, d1, hc1, hd1, hr1⟩ := exec_loop_inv h1
+  obtain ⟨v2, t02, d2, hc2, hd2, hr2⟩ := exec_loop_inv h2
+  obtain ⟨rfl, hv⟩ := evalE_sound G Γ e1 e2 hΓ c .L _ _ _ _ hlc hc1 hc2
+  have ev : v1 = v2 := hv
+  subst ev
+  have ed : d1 = d2 := Option.some.inj (hd1.symm.trans hd2)
+  subst ed
+  rcases hr1 with ⟨hf1, rfl⟩ | ⟨ht1, env1, c1, t1, hb1, ⟨u1, hu1⟩, hk1⟩
+  · rcases hr2 with ⟨_, rfl⟩ | ⟨ht2, _⟩
+    · right
+      exact ⟨rfl, hΓ, trivial⟩
+    · rw [hf1] at ht2; cases ht2
+  · rcases hr2 with ⟨hf2, _⟩ | ⟨_, env2, c2, t2, hb2, ⟨u2, hu2⟩, hk2⟩
+    · rw [ht1] at hf2; cases hf2
+    · rcases ih f2 Γ res allowed body e1 e2 _ _ hcb hΓ hb1 hb2 with hd | ⟨ht, hE, hC⟩
+      · left
+        rw [hu1, hu2]
+        exact ((hd.append_right _ _).cons _).append_left _
+      · simp only at ht hE hC
+        subst ht
+        rcases CtlRel_loopExit hC with ⟨hn1, hn2⟩ | ⟨c1', c2', he1, he2, hC'⟩
+        · rcases hk1 with ⟨c', he, _⟩ | ⟨_, env12, t12, env13, c13, t13, hp1, hl1, rfl⟩
+          · rw [hn1] at he; cases he
+          · rcases hk2 with ⟨c', he, _⟩ | ⟨_, env22, t22, env23, c23, t23, hp2, hl2, rfl⟩
+            · rw [hn2] at he; cases he
+            · rcases ih f2 Γ res allowed post env1 env2 _ _ hcp hE hp1 hp2 with
+                hd | ⟨ht, hE2, hC2⟩
+              · left
+                exact (((hd.append_right _ _).append_left _).cons _).append_left _
+              · simp only at ht hE2 hC2
+                subst ht
+                rcases ih f2 Γ res allowed (.loop c body post) env12 env22 _ _ hc0 hE2 hl1 hl2 with
+                  hd | ⟨ht, hE3, hC3⟩
+                · left
+                  exact (((hd.append_left _).append_left _).cons _).append_left _
+                · right
+                  simp only at ht hE3 hC3 ⊢
+                  subst ht
+                  exact ⟨rfl, hE3, hC3⟩
+        · rcases hk1 with ⟨c', he, rfl⟩ | ⟨hn, _⟩
+          · rw [he1] at he; cases he
+            rcases hk2 with ⟨c'', he', rfl⟩ | ⟨hn, _⟩
+            · rw [he2] at he'; cases he'
+              right
+              exact ⟨rfl, hE, hC'⟩
+            · rw [he2] at hn; cases hn
+          · rw [he1] at hn; cases hn
+
+theorem sound_call (hP : checkAll P S 0 P = true) (ih : SoundAt P S G X1 X2 f1)
+    {lhs : List Nat} {g : Nat} {args : List Expr}
+    (hc : checkS P S Γ res allowed (.call lhs g args) = true) (hΓ : lowEqEnv Γ e1 e2)
+    (h1 : exec P G X1 (f1 + 1) e1 (.call lhs g args) = some r1)
+    (h2 : exec P G X2 (f2 + 1) e2 (.call lhs g args) = some r2) : Concl Γ res r1 r2 := by
+  simp only [checkS] at hc
+  obtain ⟨vs1, t01, fn1, envc1, cc1, t1, hev1, hfn1, hst1, hlen1, hx1, htr1, hr1⟩ := exec_call_inv h1
+  obtain ⟨vs2, t02, fn2, envc2, cc2, t2, hev2, hfn2, hst2, hlen2, hx2, htr2, hr2⟩ := exec_call_inv h2
+  have efn : fn1 = fn2 := Option.some.inj (hfn1.symm.trans hfn2)
+  subst efn
+  cases hfs : S.fn[g]? with
+  | none => simp [hfs] at hc
+  | some fs =>
+    simp only [hfs, hfn1, Bool.and_eq_true] at hc
+    obtain ⟨⟨_, hargs⟩, hlhs⟩ := hc
+    obtain ⟨rfl, hvs⟩ := evalEs_sound G Γ e1 e2 hΓ args fs.params _ _ _ _ hargs hev1 hev2
+    obtain ⟨hpl, htake, hbody⟩ := checkAll_fn hP hfn1 hfs hst1
+    have hΓ' := lowEqEnv_ofList (gammaOf S fs fn1) fs.params fn1.nparams htake hpl vs1 vs2 hvs
+    rcases ih f2 _ fs.results fs.declass fn1.body _ _ _ _ hbody hΓ' hx1 hx2 with hd | ⟨ht, _, hC⟩
+    · left
+      rw [htr1, htr2]
+      exact (hd.cons _).append_left _
+    · simp only at ht hC
+      subst ht
+      rcases hr1 with ⟨rs1, env1, rfl, hs1, rfl⟩ | ⟨rfl, rfl⟩
+      · rcases hr2 with ⟨rs2, env2, rfl, hs2, rfl⟩ | ⟨rfl, _⟩
+        · right
+          exact ⟨rfl, lowEqEnv_setMany lhs fs.results rs1 rs2 _ _ _ _ hlhs hC hΓ hs1 hs2, trivial⟩
+        · exact False.elim hC
+      · rcases hr2 with ⟨rs2, env2, rfl, _, _⟩ | ⟨rfl, rfl⟩
+        · exact False.elim hC
+        · right
+          exact ⟨rfl, hΓ, trivial⟩
+
+theorem sound_ext (hX : OracleRel S X1 X2) {lhs : List Nat} {name : Nat} {leaky : Bool}
+    {args : List Expr}
+    (hc : checkS P S Γ res allowed (.ext lhs name leaky args) = true) (hΓ : lowEqEnv Γ e1 e2)
+    (h1 : exec P G X1 (f1 + 1) e1 (.ext lhs name leaky args) = some r1)
+    (h2 : exec P G X2 (f2 + 1) e2 (.ext lhs name leaky args) = some r2) : Concl Γ res r1 r2 := by
+  simp only [checkS] at hc
+  obtain ⟨vs1, t01, env1, hev1, hs1, rfl⟩ := exec_ext_inv h1
+  obtain ⟨vs2, t02, env2, hev2, hs2, rfl⟩ := exec_ext_inv h2
+  cases hrl : S.ext[name]? with
+  | none => simp [hrl] at hc
+  | some rl =>
+    simp only [hrl, Bool.and_eq_true] at hc
+    obtain ⟨hlhs, hargs⟩ := hc
+    have hgetD : S.ext.getD name [] = rl := by
+      rw [List.getD_eq_getElem?_getD, hrl]; rfl
+    cases leaky with
+    | true =>
+      simp only [if_true] at hargs
+      obtain ⟨rfl, hvs⟩ := evalEs_sound G Γ e1 e2 hΓ args _ _ _ _ _ hargs hev1 hev2
+      have evs := lowEqList_allL _ _ _ hvs
+      subst evs
+      have hres := hX.1 name vs1
+      rw [hgetD] at hres
+      right
+      exact ⟨rfl, lowEqEnv_setMany lhs rl _ _ _ _ _ _ hlhs hres hΓ hs1 hs2, trivial⟩
+    | false =>
+      simp only [Bool.false_eq_true, if_false, Bool.and_eq_true] at hargs
+      obtain ⟨hargs, hallH⟩ := hargs
+      obtain ⟨rfl, hvs⟩ := evalEs_sound G Γ e1 e2 hΓ args _ _ _ _ _ hargs hev1 hev2
+      have he := hX.2 name vs1 vs2 (lowEqList_eraseL _ _ _ hvs)
+      have hlen : (X1 name vs1).length = rl.length := by
+        rw [← setMany_length _ _ _ _ hs1, checkLhs_length _ _ hlhs]
+      have hres := lowEqList_allH rl _ _ hallH he hlen
+      right
+      exact ⟨rfl, lowEqEnv_setMany lhs rl _ _ _ _ _ _ hlhs hres hΓ hs1 hs2, trivial⟩
+
+end Sound
+
+theorem soundAt_all (P : Prog) (S : Sigs) (G : Nat → Val) (X1 X2 : Oracle) (hX : OracleRel S X1 X2)
+    (hP : checkAll P S 0 P = true) : ∀ f1, SoundAt P S G X1 X2 f1 := by
+  intro f1
+  induction f1 with
+  | zero =>
+    intro f2 Γ res allowed s e1 e2 r1 r2 _ _ h1 _
+    simp [exec] at h1
+  | succ f1 ih =>
+    intro f2 Γ res allowed s e1 e2 r1 r2 hc hΓ h1 h2
+    cases f2 with
+    | zero => simp [exec] at h2
+    | succ f2 =>
+      cases s with
+      | skip =>
+        simp only [exec] at h1 h2
+        cases h1; cases h2
+        exact Or.inr ⟨rfl, hΓ, trivial⟩
+      | brk =>
+        simp only [exec] at h1 h2
+        cases h1; cases h2
+        exact Or.inr ⟨rfl, hΓ, trivial⟩
+      | cont =>
+        simp only [exec] at h1 h2
+        cases h1; cases h2
+        exact Or.inr ⟨rfl, hΓ, trivial⟩
+      | panic =>
+        simp only [exec] at h1 h2
+        cases h1; cases h2
+        exact Or.inr ⟨rfl, hΓ, trivial⟩
+      | assign x p e => exact sound_assign hc hΓ h1 h2
+      | declass x site e => exact sound_declass hc hΓ h1 h2
+      | ret es => exact sound_ret hc hΓ h1 h2
+      | seq a b => exact sound_seq ih hc hΓ h1 h2
+      | ite c a b => exact sound_ite ih hc hΓ h1 h2
+      | loop c body post => exact sound_loop ih hc hΓ h1 h2
+      | call lhs g args => exact sound_call hP ih hc hΓ h1 h2
+      | ext lhs name leaky args => exact sound_ext hX hc hΓ h1 h2
+
+/-! ## The theorems -/
+
+/-- main invariant, by induction on fuel -/
+theorem exec_sound (P : Prog) (S : Sigs) (G : Nat → Val) (X1 X2 : Oracle) (hX : OracleRel S X1 X2)
+    (hP : checkAll P S 0 P = true) :
+    ∀ (f1 f2 : Nat) (Γ : LEnv) (res : List Label) (allowed : List Nat) (s : Stmt) (e1 e2 : Env)
+      (r1 r2 : Res),
+      checkS P S Γ res allowed s = true → lowEqEnv Γ e1 e2 →
+      exec P G X1 f1 e1 s = some r1 → exec P G X2 f2 e2 s = some r2 →
+      Div r1.2.2 r2.2.2 ∨ (r1.2.2 = r2.2.2 ∧ lowEqEnv Γ r1.1 r2.1 ∧ CtlRel res r1.2.1 r2.2.1) :=
+  fun f1 f2 Γ res allowed s e1 e2 r1 r2 hc hΓ h1 h2 =>
+    soundAt_all P S G X1 X2 hX hP f1 f2 Γ res allowed s e1 e2 r1 r2 hc hΓ h1 h2
+
+theorem run_inv {P : Prog} {G : Nat → Val} {X : Oracle} {f g : Nat} {args : List Val} {c : Ctl}
+    {t : Trace} (h : run P G X f g args = some (c, t)) :
+    ∃ fn env' t', P[g]? = some fn ∧ fn.stub = false ∧ args.length = fn.nparams ∧
+      exec P G X f (Env.ofList args) fn.body = some (env', c, t') ∧ t = .call g :: t' := by
+  unfold run at h
+  split at h
+  · rename_i fn hfn
+    split at h
+    · cases h
+    · rename_i hcond
+      simp only [Bool.or_eq_true, bne_iff_ne, ne_eq, not_or, Bool.not_eq_true, Decidable.not_not]
+        at hcond
+      split at h
+      · rename_i env' c' t' hx
+        cases h
+        exact ⟨fn, env', t', hfn, hcond.1, hcond.2, hx, rfl⟩
+      · cases h
+  · cases h
+
+theorem check_sound (P : Prog) (S : Sigs) (G : Nat → Val) (X1 X2 : Oracle) (hX : OracleRel S X1 X2)
+    (g : Nat) (hc : check P S g = true) (fs : FnSig) (hfs : S.fn[g]? = some fs)
+    (a1 a2 : List Val) (ha : lowEqList fs.params a1 a2)
+    (f1 f2 : Nat) (c1 c2 : Ctl) (t1 t2 : Trace)
+    (h1 : run P G X1 f1 g a1 = some (c1, t1)) (h2 : run P G X2 f2 g a2 = some (c2, t2)) :
+    Div t1 t2 ∨ (t1 = t2 ∧ CtlRel fs.results c1 c2) := by
+  have hP : checkAll P S 0 P = true := by
+    unfold check at hc
+    simp only [Bool.and_eq_true] at hc
+    exact hc.2
+  obtain ⟨fn1, env1, u1, hfn1, hst1, _, hx1, rfl⟩ := run_inv h1
+  obtain ⟨fn2, env2, u2, hfn2, _, _, hx2, rfl⟩ := run_inv h2
+  have efn : fn1 = fn2 := Option.some.inj (hfn1.symm.trans hfn2)
+  subst efn
+  obtain ⟨hpl, htake, hbody⟩ := checkAll_fn hP hfn1 hfs hst1
+  have hΓ' := lowEqEnv_ofList (gammaOf S fs fn1) fs.params fn1.nparams htake hpl a1 a2 ha
+  rcases exec_sound P S G X1 X2 hX hP f1 f2 _ fs.results fs.declass fn1.body _ _ _ _ hbody hΓ'
+    hx1 hx2 with hd | ⟨ht, _, hC⟩
+  · left
+    exact hd.cons _
+  · right
+    simp only at ht hC
+    subst ht
+    exact ⟨rfl, hC⟩
+
+/-- the form quoted by property C08: equal declassified verdicts ⇒ equal traces -/
+theorem check_sound_trace (P : Prog) (S : Sigs) (G : Nat → Val) (X1 X2 : Oracle)
+    (hX : OracleRel S X1 X2)
+    (g : Nat) (hc : check P S g = true) (fs : FnSig) (hfs : S.fn[g]? = some fs)
+    (a1 a2 : List Val) (ha : lowEqList fs.params a1 a2)
+    (f1 f2 : Nat) (c1 c2 : Ctl) (t1 t2 : Trace)
+    (h1 : run P G X1 f1 g a1 = some (c1, t1)) (h2 : run P G X2 f2 g a2 = some (c2, t2))
+    (hd : declassOf t1 = declassOf t2) : t1 = t2 ∧ CtlRel fs.results c1 c2 := by
+  rcases check_sound P S G X1 X2 hX g hc fs hfs a1 a2 ha f1 f2 c1 c2 t1 t2 h1 h2 with h | h
+  · exact absurd hd h.declass_ne
+  · exact h
+
+#print axioms exec_sound
+#print axioms check_sound
+#print axioms check_sound_trace
+
 end SMGo.Model.CTIR
